@@ -42,6 +42,7 @@ ID = 'C17'
 LEAN_MODULES = ['Py65.Props.C17']
 NAMESPACES = ['Py65.Props.C17']
 LEVEL = 'proof'
+USES_PROLOGUE = True
 USES_GEN = True
 EXPECTED_THEOREMS = [
     'Py65.Props.C17.runLoop_is_iterate', 'Py65.Props.C17.run_is_iterate', 'Py65.Props.C17.run_complete',
